@@ -15,7 +15,7 @@ TECHNIQUE = 'Hypothesis-generated model programs with spy components; NumPy posi
 RULE = ("case = model spec (see C01) with emphasis on connections: every index form of the C05 grammar that connect() "
         "documents x flat_src_indices in {None, True, False} on 1-, 2-, 3-D sources, scale and offset units, auto-IVC "
         "(unconnected) inputs, promoted inputs with src_indices, feedback loops (NLBGS / Newton / NLBJ). Every component "
-        "evaluation (compute / apply_nonlinear) is one observation. Non-trivial = a connection with src_indices on a "
+        "evaluation (compute / apply_nonlinear) is one observation; one case in eight is a discrete-variable model (a source that writes a Python object - int, str, list, dict, None - into a discrete output that is connected or promoted to 1-3 discrete inputs, run at several input values). Non-trivial = a connection with src_indices on a "
         "rank>=2 source, or an offset unit, or a negative index, in a model that ran. Distinct = distinct canonical JSON.")
 ASSUMPTIONS = [
     "serial DefaultVector/DefaultTransfer only",
@@ -33,7 +33,81 @@ def _flags(spec):
     return spec_flags(spec)
 
 
+def check_discrete(case):
+    """Discrete clause: discrete inputs receive their source object (by connection or by promotion)."""
+    import openmdao.api as om
+    res = Result(classes=['discrete', 'via_' + case['via'], 'obj_' + case['obj']])
+    seen = []
+    objs = {'int': lambda k: 3 + k, 'str': lambda k: 'v%d' % k, 'list': lambda k: [k, 'a', 2.5], 'dict': lambda k: {'k': k, 'z': (1, 2)},
+            'none': lambda k: None}
+    mk = objs[case['obj']]
+
+    class Src(om.ExplicitComponent):
+        def setup(self):
+            self.add_input('x', 1.0)
+            self.add_output('y', 1.0)
+            self.add_discrete_output('d', val=mk(0))
+            self.declare_partials('y', 'x', val=2.0)
+
+        def compute(self, inputs, outputs, discrete_inputs, discrete_outputs):
+            outputs['y'] = 2.0 * inputs['x']
+            discrete_outputs['d'] = mk(int(round(float(inputs['x'][0]))))
+
+    class Sink(om.ExplicitComponent):
+        def setup(self):
+            self.add_input('y', 1.0)
+            self.add_output('z', 1.0)
+            self.add_discrete_input('d', val=mk(-1))
+            self.declare_partials('z', 'y', val=1.0)
+
+        def compute(self, inputs, outputs, discrete_inputs, discrete_outputs):
+            seen.append((self.name, discrete_inputs['d']))
+            outputs['z'] = inputs['y'] + 1.0
+
+    try:
+        p = om.Problem(reports=False)
+        m = p.model
+        parent = m.add_subsystem('g', om.Group()) if case['nested'] else m
+        if case['via'] == 'promote':
+            parent.add_subsystem('src', Src(), promotes_outputs=['d', 'y'])
+            for i in range(case['nsinks']):
+                parent.add_subsystem(f"s{i}", Sink(), promotes_inputs=['d', 'y'])
+        else:
+            parent.add_subsystem('src', Src())
+            for i in range(case['nsinks']):
+                parent.add_subsystem(f"s{i}", Sink())
+                parent.connect('src.d', f"s{i}.d")
+                parent.connect('src.y', f"s{i}.y")
+        p.setup()
+        xs = case['xs']
+        pre = 'g.' if case['nested'] else ''
+        for x in xs:
+            del seen[:]
+            p.set_val(pre + 'src.x', float(x))
+            p.run_model()
+            exp = mk(int(x))
+            for name, got in seen:
+                if got != exp or type(got) is not type(exp):
+                    res.fail('discrete:input-differs-from-source-at-evaluation', f"x={x} sink {name}: got {got!r} expected {exp!r}")
+            for i in range(case['nsinks']):
+                got = p.get_val(pre + f"s{i}.d")
+                if got != exp:
+                    res.fail('discrete:input-differs-from-source-after-run', f"x={x} s{i}.d = {got!r} expected {exp!r}")
+            if len(seen) != case['nsinks']:
+                res.fail('discrete:unexpected-number-of-evaluations', f"{len(seen)} evaluations for {case['nsinks']} sinks")
+    except Exception as e:
+        sig = core.repo_frame_signature(e, 'discrete')
+        if sig is None:
+            raise
+        res.fail(sig, f"{type(e).__name__}: {e}")
+    res.nontrivial = case['nsinks'] > 1 or case['nested']
+    res.classes.append('ran')
+    return res
+
+
 def check(case):
+    if case.get('kind') == 'discrete':
+        return check_discrete(case)
     import openmdao.api as om
     from vfw.gen_model import build_problem
     from vfw.refmodel import RefModel, absname
@@ -142,7 +216,12 @@ def strategy(tier):
     from vfw.gen_spec import model_spec, profile
     prof = profile(styles=['dense'], assembled=False, p_f4=0.03, p_neg_index=0.25, p_imp=0.15,
                    cyc_nl=['nlbgs', 'nlbgs', 'newton', 'nlbj'], cyc_ln=['direct'], max_comps=4, auto_ivc=0.15, promotions=0.3)
-    return model_spec(prof).map(lambda s: {'spec': s})
+    discrete = st.fixed_dictionaries({
+        'kind': st.just('discrete'), 'via': st.sampled_from(['connect', 'promote']),
+        'obj': st.sampled_from(['int', 'str', 'list', 'dict', 'none']), 'nested': st.booleans(),
+        'nsinks': st.integers(1, 3), 'xs': st.lists(st.integers(-3, 5), min_size=1, max_size=3)})
+    main = model_spec(prof).map(lambda s: {'spec': s})
+    return st.integers(0, 7).flatmap(lambda k: discrete if k == 0 else main)
 
 
 def units(tier, seed):
